@@ -14,7 +14,14 @@ use crate::verif_model::Arc;
 fn arr_t(t: Type, elems: Vec<Variable>) -> Variable {
     Variable::Array(Arc::new(Array::new_with_type(t, elems.into())))
 }
+fn declare() {
+    use crate::instruction::verif_gate::*;
+    allow_binops(b(BinOperator::Equal) | b(BinOperator::NotEqual));
+    allow_unops(0);
+    allow_mask((1 << K_VARIABLE) | (1 << K_BINOPERATION));
+}
 fn run(op: BinOperator, a: Variable, b: Variable) -> Option<bool> {
+    declare();
     let mut interp = Interpreter::without_stdlib();
     let ins = BinOperation { lhs: Instruction::Variable(a), rhs: Instruction::Variable(b), op };
     match ins.exec(&mut interp) {
@@ -23,6 +30,7 @@ fn run(op: BinOperator, a: Variable, b: Variable) -> Option<bool> {
     }
 }
 fn fold(op: BinOperator, a: Variable, b: Variable) -> Option<bool> {
+    declare();
     let interp = Interpreter::without_stdlib();
     let mut lv = LocalVariables::new(&interp);
     let ins = BinOperation { lhs: Instruction::Variable(a), rhs: Instruction::Variable(b), op };
@@ -35,7 +43,7 @@ fn fold(op: BinOperator, a: Variable, b: Variable) -> Option<bool> {
 }
 
 #[kani::proof]
-#[kani::unwind(6)]
+#[kani::unwind(4)]
 #[kani::stub(alloc::fmt::format, crate::verif_common::stub_format)]
 pub fn eq_ne_operators_on_arrays() {
     let (x, p): (i64, i64) = (kani::any(), kani::any());
